@@ -87,6 +87,13 @@ theorem clean_callRepr (armed : Bool) (tag : String) (rc : Bool) (fault : Fault)
       | oof => exact clean_done _
     · split <;> exact clean_done _
 
+theorem clean_tolerate (tol : Bool) {inner : Prog Out} (h : Clean inner) :
+    Clean (tolerate tol inner) := by
+  unfold tolerate
+  split
+  · exact clean_bind h fun _ => clean_done _
+  · exact h
+
 theorem clean_evalFrag (rec : Nat → Prog Out) (armed : Bool) (vals : List (String × Nat)) (fr : Frag)
     (h : ∀ i, Clean (rec i)) : Clean (evalFrag rec armed vals fr) := by
   unfold evalFrag
@@ -96,12 +103,12 @@ theorem clean_evalFrag (rec : Nat → Prog Out) (armed : Bool) (vals : List (Str
     dsimp only
     cases fr.fmt with
     | bangR => exact h i
-    | callG t r f => exact clean_callRepr _ _ _ _ (h i)
+    | callG t r f c => exact clean_callRepr _ _ _ _ (clean_tolerate c (h i))
   | nothing =>
     dsimp only
     cases fr.fmt with
     | bangR => exact clean_done _
-    | callG t r f => exact clean_callRepr _ _ _ _ (clean_done _)
+    | callG t r f c => exact clean_callRepr _ _ _ _ (clean_tolerate c (clean_done _))
 
 /-! ### the two guards -/
 
